@@ -17,7 +17,7 @@ T = {
         "unchanged and in order, followed only by keyword values and declared defaults, and returns only when the parser consumed every argument; CommandExecutable.__call__ (one pipeline step) applies the registered "
         "function exactly once to the predecessor's state or value followed by exactly the converted arguments and makes what it returns the "
         "result (a State as it is, anything else as the data of the successor state); evaluate_parameter evaluates every occurrence of a link "
-        "argument once. That the argument parsers convert each text according to annotation / default, that evaluate_action hands the expanded "
+        "argument once, and Context.apply (relative links) evaluates the combined query exactly once and returns its state as it is. That the argument parsers convert each text according to annotation / default, that evaluate_action hands the expanded "
         "parameters to the step in order, and the end-to-end composition is NOT proved: it is explored by a direct reference interpreter Sem (39-command vocabulary, every argument "
         "shape, links to depth 2/3, file names, injected inputs incl. falsy ones, extra parameters; ~7.5k queries quick) and by a run-time "
         "contract on command_metadata_from_callable / the argument parsers (annotation wins over the default's type; 170 cases).",
